@@ -6,6 +6,7 @@ use std::process::{Command, Stdio};
 use std::time::{Duration, Instant};
 
 pub mod net;
+pub mod streamops;
 
 /// SplitMix64: every random choice of a run derives from one seed.
 #[derive(Clone)]
@@ -90,6 +91,12 @@ pub fn isolated_main(cases: Vec<String>, run: fn(&str) -> String, per_case: Dura
         Some(i) => std::fs::read_to_string(&args[i + 1]).expect("cases file").lines()
             .map(|l| l.split("\t=>\t").next().unwrap().to_string()).filter(|l| !l.trim().is_empty()).collect(),
         None => cases,
+    };
+    // VERIF_SHARD=k/n: run only the cases whose index is k modulo n (bin/check
+    // starts n such processes for checks dominated by waiting)
+    let cases: Vec<String> = match std::env::var("VERIF_SHARD").ok().and_then(|s| { let (k, n) = s.split_once('/')?; Some((k.parse::<usize>().ok()?, n.parse::<usize>().ok()?)) }) {
+        Some((k, n)) if n > 1 => cases.into_iter().enumerate().filter(|(i, _)| i % n == k).map(|(_, c)| c).collect(),
+        _ => cases,
     };
     let exe = std::env::current_exe().expect("exe");
     let out = std::io::stdout();
